@@ -287,6 +287,16 @@ func c06(c *Ctx) {
 		scs = append(scs, LifeScenario{Cause: "close", Closers: 1, Flood: true, Track: tr, ConnectAgain: "early"})
 		tags = append(tags, "connect-again")
 	}
+	// the DISCONNECTED handler calls Close itself (the client is not connected by then: nothing happens, the call returns);
+	// and a server that keeps PINGing a client whose peer... is the server itself, no longer reading: the PONGs pile up
+	for i, cause := range []string{"close", "eof"} {
+		// (a peer that no longer reads and then hangs up is not a scenario: its kernel answers the writes in flight with a
+		// reset. The stalled-peer connection is ended by the client: Close, or its context.)
+		stalledCause := []string{"close", "cancel"}[i]
+		scs = append(scs, LifeScenario{Cause: cause, Closers: 1, Flood: true, CloseInDiscHandler: true, AfterLines: 1},
+			LifeScenario{Cause: stalledCause, Closers: 1, Flood: true, UseCtx: true, SlowServer: true, PeerStalled: true, InBacklog: 80, InSegments: 2, BacklogKind: "pings"})
+		tags = append(tags, "close-inside-disconnected-handler", "peer-stalled+backlog-of-pings")
+	}
 	// two goroutines call Connect on a client that is down, the first one's dial still under way when the second calls:
 	// one connection results, one call is refused, and the life cycle of that one connection is as ever
 	for _, cause := range []string{"close", "eof", "cancel"} {
@@ -424,6 +434,16 @@ func c07(c *Ctx) {
 		}
 		scs = append(scs, sc)
 		tags = append(tags, tag)
+	}
+	// the DISCONNECTED handler calls Close itself (the client is not connected by then: nothing happens, the call returns);
+	// and a server that keeps PINGing a client whose peer... is the server itself, no longer reading: the PONGs pile up
+	for i, cause := range []string{"close", "eof"} {
+		// (a peer that no longer reads and then hangs up is not a scenario: its kernel answers the writes in flight with a
+		// reset. The stalled-peer connection is ended by the client: Close, or its context.)
+		stalledCause := []string{"close", "cancel"}[i]
+		scs = append(scs, LifeScenario{Cause: cause, Closers: 1, Flood: true, CloseInDiscHandler: true, AfterLines: 1},
+			LifeScenario{Cause: stalledCause, Closers: 1, Flood: true, UseCtx: true, SlowServer: true, PeerStalled: true, InBacklog: 80, InSegments: 2, BacklogKind: "pings"})
+		tags = append(tags, "close-inside-disconnected-handler", "peer-stalled+backlog-of-pings")
 	}
 	// two goroutines call Connect on a client that is down, the first one's dial still under way when the second calls:
 	// one connection results, one call is refused, and the life cycle of that one connection is as ever
